@@ -165,3 +165,43 @@ def run_driver(lines):
 def case_hash(case):
     c = {k: v for k, v in case.items() if k not in ("id",)}
     return hashlib.sha1(json.dumps(c, sort_keys=True).encode()).hexdigest()[:12]
+
+
+def rank_mirror(tensor):
+    """C02's invariant on the real objects: rank i lists exactly the fibers at depth i of the tree
+    (each once), each fiber's owner is that rank, ranks are chained.  Returns '' or a description."""
+    Fiber = ft().Fiber
+    root = tensor.getRoot()
+    if not isinstance(root, Fiber):
+        return ""
+    levels = []
+    cur = [root]
+    while cur:
+        levels.append(cur)
+        nxt = []
+        for f in cur:
+            for p in f.payloads:
+                if isinstance(p, Fiber):
+                    nxt.append(p)
+        cur = nxt
+    ranks = tensor.ranks
+    for i, r in enumerate(ranks):
+        listed = [id(f) for f in r.getFibers()]
+        live = [id(f) for f in levels[i]] if i < len(levels) else []
+        if sorted(listed) != sorted(live):
+            extra = len(set(listed) - set(live))
+            missing = len(set(live) - set(listed))
+            dup = len(listed) - len(set(listed))
+            return f"rank {i}: {extra} stale, {missing} missing, {dup} duplicate"
+        for f in r.getFibers():
+            if f.getOwner() is not r:
+                return f"rank {i}: fiber with wrong owner"
+        nr = r.getNextRank()
+        if i + 1 < len(ranks):
+            if nr is not ranks[i + 1]:
+                return f"rank {i}: next-rank chain broken"
+        elif nr is not None:
+            return f"rank {i}: last rank has a next rank"
+    if len(levels) > len(ranks):
+        return f"tree deeper ({len(levels)}) than rank list ({len(ranks)})"
+    return ""
